@@ -105,6 +105,19 @@ def is_constant_type(expression_type):
     )
 
 
+def _constant_value_from_type(expression_type):
+    """Returns the single value of a constant expression type, or None."""
+    if not is_constant_type(expression_type):
+        return None
+    if expression_type.which_type == "integer":
+        return int(expression_type.integer.modular_value)
+    elif expression_type.which_type == "boolean":
+        return expression_type.boolean.value
+    elif expression_type.which_type == "enumeration":
+        return int(expression_type.enumeration.value)
+    return None
+
+
 def constant_value(expression, bindings=None):
     """Evaluates expression with the given bindings."""
     if expression is None:
@@ -132,9 +145,17 @@ def constant_value(expression, bindings=None):
                 expression.type.which_type
             )
     elif expression.which_expression == "function":
-        return _constant_value_of_function(expression.function, bindings)
+        value = _constant_value_of_function(expression.function, bindings)
+        if value is None and not bindings:
+            # Not foldable from the operands alone (`$upper_bound(x) - 253`), but
+            # the computed bounds may still pin the value down.
+            value = _constant_value_from_type(expression.type)
+        return value
     elif expression.which_expression == "field_reference":
-        return None
+        # A reference to a field whose value is known at compile time (`let k =
+        # 2`) has that value; once the bounds have been computed it is in the
+        # type of the reference.
+        return _constant_value_from_type(expression.type)
     elif expression.which_expression == "boolean_constant":
         return expression.boolean_constant.value
     elif expression.which_expression == "builtin_reference":
